@@ -19,6 +19,8 @@ func ruleC14(prog *Program, rep *Report) {
 	ruleJPStringWriter(prog, rep)
 	ruleJPToken(prog, rep)
 	ruleSiblingGuard(prog, rep, []string{"jp"})
+	ruleElideGuard(prog, rep)
+	rulePrecAgree(prog, rep)
 }
 
 // escape reader of the jp parser: the function that has a switch on a byte
